@@ -823,6 +823,17 @@ VSattach(HFILEID     f,    /* IN: file handle */
     else
         HGOTO_ERROR(DFE_BADACC, FAIL);
 
+    /* check for write-permission to the file (as Vattach does): a new or
+       modified vdata could never be stored */
+    if (acc_mode == 'w') {
+        filerec_t *file_rec = HIfid2rec(f);
+
+        if (BADFREC(file_rec))
+            HGOTO_ERROR(DFE_ARGS, FAIL);
+        if (!(file_rec->access & DFACC_WRITE))
+            HGOTO_ERROR(DFE_BADACC, FAIL);
+    }
+
     /*      */
     if (vsid == -1) { /* ---------- VSID IS -1 -----------------------
                          if "r" access return error.
